@@ -63,10 +63,11 @@ func (s recvSpec) newVector() comet.VectorIndex {
 
 // readerFrom abstracts "fresh receiver + ReadFrom".
 type loaded struct {
-	vec  comet.VectorIndex
-	txt  *comet.BM25SearchIndex
-	meta *comet.RoaringMetadataIndex
-	hyb  comet.HybridSearchIndex
+	nodeQ bool // node-id vector queries are part of the comparison (flat, HNSW, IVF: the kinds that persist raw vectors)
+	vec   comet.VectorIndex
+	txt   *comet.BM25SearchIndex
+	meta  *comet.RoaringMetadataIndex
+	hyb   comet.HybridSearchIndex
 }
 
 func (s recvSpec) fresh() (loaded, func(r *countingReader) (int64, error)) {
@@ -74,6 +75,7 @@ func (s recvSpec) fresh() (loaded, func(r *countingReader) (int64, error)) {
 	switch {
 	case s.ck <= 4:
 		l.vec = s.newVector()
+		l.nodeQ = s.ck == 0 || s.ck == 1 || s.ck == 4
 		return l, func(r *countingReader) (int64, error) { return l.vec.ReadFrom(r) }
 	case s.ck == 5:
 		l.txt = comet.NewBM25SearchIndex()
@@ -110,10 +112,21 @@ func (l loaded) probe(queries [][]float32, words []string) string {
 			res, err := l.vec.NewSearch().WithQuery(cloneVec(q)).WithK(0).Execute()
 			sb.WriteString(fingerprintVec(res, err))
 		}
+		if l.nodeQ {
+			// "every query of the kinds quantified in C01-C05": searches from stored node ids too
+			for id := uint32(8); id < 26; id++ {
+				res, err := l.vec.NewSearch().WithNode(id, id+1).WithK(0).Execute()
+				sb.WriteString(fingerprintVec(res, err))
+			}
+		}
 	}
 	if l.txt != nil && l.hyb == nil {
 		for _, w := range words {
 			res, err := l.txt.NewSearch().WithQuery(w).WithK(0).Execute()
+			sb.WriteString(fingerprintTxt(res, err))
+		}
+		for id := uint32(8); id < 26; id++ { // text searches from stored documents (their token sequences)
+			res, err := l.txt.NewSearch().WithNode(id).WithK(0).Execute()
 			sb.WriteString(fingerprintTxt(res, err))
 		}
 	}
@@ -339,6 +352,7 @@ func buildState(r *rand.Rand, ck int, t *Trace) builtState {
 		s, idx := mkVec(ck)
 		b.spec = s
 		b.src.vec = idx
+		b.src.nodeQ = ck == 0 || ck == 1 || ck == 4
 		before := b.src.probe(b.queries, b.words)
 		n, err := idx.WriteTo(&buf)
 		if err != nil {
